@@ -1,0 +1,25 @@
+//go:build verif
+
+package packetcache
+
+import "fmt"
+
+// VerifDump returns the bookkeeping state of the cache (not the packet
+// bytes), for the correspondence check against the Coq model
+// (Model/Cache.v).
+func (cache *Cache) VerifDump() string {
+	cache.mu.Lock()
+	defer cache.mu.Unlock()
+	s := fmt.Sprintf("%d %d %v %d %d %d %d %d %v %v %d %d %d %d",
+		cache.last, cache.cycle, cache.lastValid,
+		cache.expected, cache.totalExpected,
+		cache.received, cache.totalReceived,
+		cache.keyframe, cache.keyframeValid,
+		cache.bitmap.valid, cache.bitmap.first, cache.bitmap.bitmap,
+		cache.tail, len(cache.entries))
+	for i := range cache.entries {
+		e := &cache.entries[i]
+		s += fmt.Sprintf(" %d:%d:%d", e.seqno, e.lengthAndMarker, e.timestamp)
+	}
+	return s
+}
